@@ -19,6 +19,9 @@ from vmc.explore import Execution
 from workflows.events import StartEvent, StopEvent, WorkflowIdleEvent
 
 PID = "C36"
+from llama_agents.server._store.sqlite import sqlite_workflow_store as _sws  # noqa: E402
+
+_sws._TICK_PAGE_SIZE = 3  # configuration constant: the short tick logs of these programs span several pages when a released run is reloaded
 
 
 def execute(ex: Execution, backend: str, idle_timeout: float, n_waits: int, stack_kind: str = "in_process",
@@ -301,6 +304,7 @@ RULE += _R6["C36"]
 
 def run(tier: str, seed: int) -> Any:
     res = run_programs(PID, programs(tier), RULE, seed, assumptions=[
+        "_TICK_PAGE_SIZE of the SQLite store is set to 3 by the harness so that the tick log a reload replays spans several pages",
         "virtual clock: datetime.now() in the idle-release / store modules follows the loop's virtual time",
         "responses are sent only once the run waits for them (an event sent before its waiter exists is dropped by design)",
         "DBOS stack: the real DBOSIdleReleaseDecorator + SqliteRunLifecycleLock (real DB file) run over the in-process BasicRuntime, which "
